@@ -4,12 +4,12 @@ from common import *
 import senderlib, sendercheck
 
 def main():
-    fams = sorted({(f, d) for plan in sendercheck.PLANS.values() for (f, d, _, _) in plan if d <= 5} | {("S7", 0), ("S7b", 0), ("S6", 0), ("S8", 0)})
+    fams = sorted({(f, d) for plan in sendercheck.PLANS.values() for (f, d, _, _) in plan if d <= 5} | {("S7", 0), ("S7b", 0), ("S6", 0), ("S6b", 0), ("S8", 0)})
     ctx = Ctx("WARM", "quick", 1)
     import recvlib
     with cf.ThreadPoolExecutor(max_workers=4) as ex:
         list(ex.map(lambda fd: senderlib.gen(ctx, fd[0], fd[1]), fams))
-        list(ex.map(lambda f: recvlib.gen_sessions(ctx, f), ["small", "clean", "car", "exp", "mem", "wide", "medium"]))
+        list(ex.map(lambda f: recvlib.gen_sessions(ctx, f), ["small", "clean", "car", "exp", "exp2", "mem", "wide", "medium"]))
     # model checking of the mechanism specifications composed with the monitors (cached by the hash of the modules)
     senderlib.mc_sender(ctx, "ok", 6)
     for variant, expect in sorted({x for v in senderlib.MC_VARIANTS.values() for x in v}):
